@@ -14,8 +14,12 @@ func main() {
 	verbose := flag.Bool("v", false, "verbose")
 	flag.Parse()
 	switch *scenario {
-	case "stale-highqc-root-update", "root-update-control":
-		n, story, err := scenarioStaleHighQCAcrossRootUpdate(*scenario == "stale-highqc-root-update", *verbose)
+	case "stale-highqc-root-update", "root-update-control", "duplicate-root-update":
+		root := uint64(6)
+		if *scenario == "duplicate-root-update" {
+			root = 5 // the notification for the root height the replicas are already at, delivered again
+		}
+		n, story, err := scenarioStaleHighQCAcrossRootUpdate(*scenario != "root-update-control", root, *verbose)
 		report(n, story, err)
 	case "stale-precommit", "genuine-precommit":
 		n, story, err := scenarioStalePrecommitQC(*scenario == "stale-precommit", *verbose)
